@@ -28,6 +28,8 @@ CHECKS = {
             "fault enumeration replayed on the compiled tree + TLC trace validation against LifeTrace.tla", "§4 C14"),
     "C15": ("hgv_engine", "Dataflow.tla specifies captured errors (the thrower writes nothing, one error tick carrying the message, nothing else changes) and is model-checked per program; chains with a thrower are run with per-node capture, try_except around a sub-graph (thrower at child index 0/1/2) and capture inside a nested child; all streams and error ticks must equal the specification and EngineTrace validates C15 clauses per event.",
             "TLA+ model checking (Dataflow) + spec->code replay + TLC trace validation (EngineTrace C15 clauses)", "§4 C15"),
+    "C18": ("hgv_engine", "NodeSched.tla - a level-B model of NodeScheduler + the graph's per-node slot + the post-evaluation re-arm rule, driven by an arbitrary user program (TLC chooses the scheduler operations of every activation and the input tick times) - is model-checked exhaustively against the level-A invariants TagsAgree / NoMissedWake / NotEarly / SlotCovers; its simulated behaviours and op-dense random scripts are replayed into a scripted scheduler node on the compiled tree (alone, in a nested child, two per graph); every recorded trace (each operation, every query answer, every activation) is validated by the level-A trace specification SchedTrace with TLC; activation times are additionally compared with the level-B prediction (DRIFT only).",
+            "TLC exhaustive model checking of NodeSched.tla + behaviour replay + TLC trace validation against SchedTrace.tla", "§4 C18"),
 }
 
 ENGINES = {"hgv_engine": ("/verif/harness/engine", "native interpreter-style driver linked against the compiled working tree; scenarios in, ndjson traces out")}
